@@ -965,6 +965,53 @@ func TestHostileConstants(t *testing.T) {
 			mutatedProp.One(t, Case{Target: tg, Fam: "constants", Bytes: in})
 		}
 	}
+	// hostile envelope headers around a schema-valid payload with a parseable issuer (no valid signature is
+	// needed to reach the header checks): over-long varints, runs of continuation bytes at every segment
+	// position, empty / huge / non-minimal forms - for every issuer key type, through every byte-level decoder
+	{
+		var hdrs [][]byte
+		for k := 1; k <= 12; k++ {
+			run := bytes.Repeat([]byte{0xff}, k)
+			hdrs = append(hdrs, append(append([]byte{0x34, 0xed, 0x01}, run...), 0x01), append(append([]byte{0x34}, run...), 0x01), run,
+				append(append([]byte{0x34, 0xed, 0x01, 0x71}, run...)), append(bytes.Repeat([]byte{0x80}, k), 0x00), append(append([]byte{0x34, 0xe7, 0x01, 0x12}, run...), 0x71))
+		}
+		hdrs = append(hdrs, []byte{}, []byte{0x34}, []byte{0x34, 0xed}, bytes.Repeat([]byte{0x34}, 300), make([]byte, 4096))
+		for _, alg := range []keys.Alg{keys.Ed25519, keys.Secp256k1, keys.P256, keys.RSA} {
+			k := keys.Get(alg, 0)
+			for _, typ := range []string{"dlg", "inv"} {
+				tk := tok.Tok{Dlg: &tok.Dlg{Iss: tok.KeyRef{Alg: alg}, Aud: tok.KeyRef{Alg: keys.Ed25519, Idx: 1}, Sub: "iss", Cmd: "/foo", Nonce: bytes.Repeat([]byte{1}, 12)}}
+				if typ == "inv" {
+					tk = tok.Tok{Inv: &tok.Inv{Iss: tok.KeyRef{Alg: alg}, Sub: tok.KeyRef{Alg: keys.Ed25519, Idx: 1}, Cmd: "/foo", Nonce: bytes.Repeat([]byte{1}, 12), NoIat: true}}
+				}
+				built, _, err := tok.Build(tk)
+				if err != nil {
+					t.Fatalf("INCONCLUSIVE %v", err)
+				}
+				sealed, _, err := built.ToSealed(k.Priv)
+				if err != nil {
+					t.Fatalf("INCONCLUSIVE %v", err)
+				}
+				e, err := env.Parse(sealed)
+				if err != nil {
+					t.Fatalf("INCONCLUSIVE %v", err)
+				}
+				for _, hd := range hdrs {
+					for _, sig := range [][]byte{e.Sig, make([]byte, 64)} {
+						b, err := env.Assemble(sig, env.SigPayloadNode(hd, e.Tag, e.Payload))
+						if err != nil {
+							continue
+						}
+						for _, tg := range byteTargets {
+							if tg == "meta.GetEncrypted" {
+								continue
+							}
+							mutatedProp.One(t, Case{Target: tg, Fam: "hostile-header", Bytes: b})
+						}
+					}
+				}
+			}
+		}
+	}
 	for n := 0; n <= 90; n++ {
 		mutatedProp.One(t, Case{Target: "meta.GetEncrypted", Fam: "constants", Bytes: make([]byte, n)})
 		mutatedProp.One(t, Case{Target: "meta.GetEncrypted", Fam: "constants", Bytes: bytes.Repeat([]byte{0xff}, n)})
